@@ -61,7 +61,11 @@ type c20Scenario struct {
 	TempMs    int        `json:"tempMs"`
 	ApiMs     int        `json:"apiMs"`
 	MetricsMs int        `json:"metricsMs"`
-	Seconds   int        `json:"seconds"`
+	// Aligned: one more Prometheus scraper whose period is the control tick and whose phase is the
+	// controllers' (Run's start-up wait), so that scrapes and control cycles become runnable at the same
+	// virtual instant and run truly in parallel - the other activities are kept off each other's grid
+	Aligned bool `json:"aligned,omitempty"`
+	Seconds int  `json:"seconds"`
 	// Outage: every fourth second the temperature files hold garbage for one second (sensor outage):
 	// the error paths of sensors, curves and controllers run concurrently with everything else
 	Outage bool `json:"outage,omitempty"`
@@ -96,6 +100,7 @@ func genC20(t *rapid.T) c20Scenario {
 		sc.Curves = append(sc.Curves, c)
 	}
 	sc.Outage = rapid.Bool().Draw(t, "outage")
+	sc.Aligned = rapid.Bool().Draw(t, "aligned")
 	nf := rapid.IntRange(1, 4).Draw(t, "nFans")
 	for i := 0; i < nf; i++ {
 		// several fans sharing one curve is the interesting case
@@ -292,6 +297,32 @@ func runC20(t *testing.T, sc c20Scenario, out *c20Counts) (problem string) {
 				}
 			}
 		})
+		if sc.Aligned {
+			spawn(func() {
+				select {
+				case <-ctx.Done():
+					return
+				case <-time.After(2*time.Second + 2*cfg.TempSensorPollingRate):
+				}
+				tk := time.NewTicker(cfg.ControllerAdjustmentTickRate)
+				defer tk.Stop()
+				for {
+					select {
+					case <-ctx.Done():
+						return
+					case <-tk.C:
+						// what the collector reads, many times while the control cycles of this instant run
+						for k := 0; k < 400; k++ {
+							for _, c := range ctls {
+								_ = c.GetStatistics()
+							}
+						}
+						_, _ = prometheus.DefaultGatherer.Gather()
+						nMetrics.Add(1)
+					}
+				}
+			})
+		}
 		// the world changes: temperatures move, a stalled fan may start to spin
 		for s := 0; s < sc.Seconds; s++ {
 			time.Sleep(time.Second)
@@ -361,6 +392,9 @@ func TestC20(t *testing.T) {
 				labels = append(labels, "stall-episode")
 				break
 			}
+		}
+		if sc.Aligned {
+			labels = append(labels, "scrape-aligned-with-control-ticks")
 		}
 		st.Case(map[string]any{"scenario": sc, "activityCounts": counts}, kinds >= 3, labels...)
 	}
